@@ -55,3 +55,13 @@ claim("C19", "who-may-write rule for the hint byte, encoder/decoder sibling agre
 claim("C20", "key-completeness against the struct type, statement-order (must-precede) rules on Store/Load/deserialize, who-may-write rule for package cache, gob registration exhaustiveness computed from go/ast, encode/decode sequence agreement",
       "Decides that every configuration field and the import path reach the key, that entries appear only by rename of a closed temporary and failures clean up, that staleness is checked before decoding and Load hits only on the clean path with gzip close errors propagated, that the test package bypasses the cache before any file operation, that every AST node type is gob-registered and Write/Read agree, and that callers discard failed loads. gzip/gob/rename are trusted.",
       TB, "DESIGN.md §3 C20")
+
+claim("C11", "method-set exhaustiveness against the type-checked js package, documentation-table agreement with $nativeArray/$internalize, $kind exhaustiveness of the conversion functions, finite-domain evaluation of the compiler's identity fast paths",
+      "Decides that every js.Object method and special name has a translation with the declared result type, that the documented conversion table matches the typed-array and constructor dispatch tables, that $externalize/$internalize/$needsExternalization cover every kind or reach the documented error and agree with the compiler's fast paths, that integer arms wrap, and that function wrappers are cached. Does not decide value round trips.",
+      TB, "DESIGN.md §3 C11")
+claim("C12", "directive-table agreement with doc/pargma.md, shape exhaustiveness of the augment functions, mark-implies-finalize pairing (nil store ⇒ change flag ⇒ finalizeRemovals ⇒ squeeze of every list), import-pruning candidate rules",
+      "Decides that documented directives are the implemented ones, that every overridable declaration shape is handled on both sides, that every removal mark is finalised (no nil entries reach the type checker), that blank/dot/directive imports are never pruned from non-empty files, and that overlays are scanned before originals are rewritten. Does not decide the merged declaration set for arbitrary inputs.",
+      TB, "DESIGN.md §3 C12")
+claim("C16", "key-flow rules on the short-name allocator, byte-class evaluation of needsSpace over all 256 values, drop-condition and verbatim-copy obligations of the whitespace remover, lexical lint of the template corpus for shapes the remover mishandles",
+      "Decides that allocated names are recorded before use, inherited by nested scopes and seeded with all reserved words, that a separator survives exactly between identifier-class bytes and between two minus signs, that strings and hints are copied verbatim and hint bytes never influence whitespace decisions, and that no template contains a shape the remover would change the meaning of. Does not decide behavioural equivalence of minified output or esbuild.",
+      TB, "DESIGN.md §3 C16")
